@@ -27,6 +27,7 @@ func main() {
 	cf, _ := os.Create(out + "/cases.sx")
 	of, _ := os.Create(out + "/impl.obs")
 	mf, _ := os.Create(out + "/meta.tsv")
+	pf, _ := os.Create(out + "/progress") // the id of the case about to run, unbuffered: read when the process dies
 	cw, ow, mw := bufio.NewWriterSize(cf, 1<<20), bufio.NewWriterSize(of, 1<<20), bufio.NewWriterSize(mf, 1<<20)
 	emit := func(id, sx, obs, note, expect string) {
 		if only != "" && id != only {
@@ -63,7 +64,11 @@ func main() {
 			if only != "" && id != only {
 				continue
 			}
+			fmt.Fprintln(pf, id)
 			c := gen(caseRng(seed, family, i), id)
+			if os.Getenv("VERIF_DEBUG_CASE") != "" {
+				fmt.Fprintln(os.Stderr, c.sx())
+			}
 			emit(id, c.sx(), c.runImpl(), c.note(), c.expect())
 		}
 	}
